@@ -285,6 +285,11 @@ def race_stress(ctx):
                     coverage=cov, notes=notes)
     # run
     secs = int(os.environ.get("VERIF_C20_SECONDS", SECONDS[tier]))
+    if tier == "quick" and "VERIF_C20_SECONDS" not in os.environ and dt > 20:
+        # cold Go build cache (the -race standard library had to be compiled): keep the quick
+        # tier inside its time budget by shortening the statistical part
+        secs = max(15, int(secs - (dt - 10)))
+        notes.append("race build took %.0fs (cold cache): stress shortened to %ds" % (dt, secs))
     rdir = os.path.join(wd, "race")
     shutil.rmtree(rdir, ignore_errors=True)
     os.makedirs(rdir)
